@@ -13,6 +13,7 @@ import (
 	"fmt"
 	"math/rand"
 	"os"
+	"runtime"
 	"strconv"
 	"sync"
 	"testing"
@@ -186,4 +187,19 @@ func (tw *vfTraceWriter) Close() {
 	tw.w.Flush()
 	tw.f.Close()
 	tw.mu.Unlock()
+}
+
+// vfGid returns the id of the calling goroutine (parsed from runtime.Stack); used to
+// attribute hook events and I/O calls to the goroutine that made them.
+func vfGid() uint64 {
+	var buf [64]byte
+	n := runtime.Stack(buf[:], false)
+	var id uint64
+	for _, ch := range buf[len("goroutine "):n] {
+		if ch < '0' || ch > '9' {
+			break
+		}
+		id = id*10 + uint64(ch-'0')
+	}
+	return id
 }
